@@ -27,8 +27,9 @@ VARIABLES l,      \* next event
           cur,    \* exchange being collected: [open, ex, cmd, seq, val, replies]
           exs,    \* exchanges of the public call in progress (observed)
           pcall,  \* the public call in progress (observed): [op, tok, amt] (op = "" none)
-          open    \* P_C07: token -> receipt, from observations only
-tvars == <<l, cfg, sc, c, sync, cur, exs, pcall, open>>
+          open,   \* P_C07: token -> receipt, from observations only
+          clean   \* no connection was opened or closed since the scenario started: the fault-free quantifier of C07/C08/C18/C19/C20
+tvars == <<l, cfg, sc, c, sync, cur, exs, pcall, open, clean>>
 
 Ev == Trc[l]
 NoCur == [open |-> FALSE, ex |-> 0, cmd |-> "", seq |-> "", val |-> <<>>, replies |-> <<>>]
@@ -62,16 +63,16 @@ RetMatches(c0, ret) ==
 Closed(cc, cu) == IF cu.open /\ ~Returned(cc) THEN OnReplies(cfg, cc, cu.replies) ELSE cc
 ExsClosed == IF cur.open THEN Append(exs, cur) ELSE exs
 
-TInit == /\ l = 1 /\ cfg = Cfg0 /\ sc = 0 /\ c = Idle(Empty) /\ sync = TRUE /\ cur = NoCur /\ exs = <<>> /\ pcall = NoCall /\ open = Empty
+TInit == /\ l = 1 /\ cfg = Cfg0 /\ sc = 0 /\ c = Idle(Empty) /\ sync = TRUE /\ cur = NoCur /\ exs = <<>> /\ pcall = NoCall /\ open = Empty /\ clean = TRUE
 
 TReset == /\ Ev.e = "reset"
-          /\ cfg' = Ev.cfg /\ sc' = Ev.sc /\ c' = Idle(Empty) /\ sync' = TRUE /\ cur' = NoCur /\ exs' = <<>> /\ pcall' = NoCall /\ open' = Empty
+          /\ cfg' = Ev.cfg /\ sc' = Ev.sc /\ c' = Idle(Empty) /\ sync' = TRUE /\ cur' = NoCur /\ exs' = <<>> /\ pcall' = NoCall /\ open' = Empty /\ clean' = TRUE
 
 TCall == /\ Ev.e = "call"
          /\ pcall' = [op |-> Ev.op, tok |-> Ev.token, amt |-> Ev.amount]
          /\ exs' = <<>> /\ cur' = NoCur
          /\ c' = IF sync THEN Call(cfg, c, Ev.op, Ev.token, Ev.amount) ELSE c
-         /\ UNCHANGED <<cfg, sc, sync, open>>
+         /\ UNCHANGED <<cfg, sc, sync, open, clean>>
 
 \* a request reaches the terminal (not part of the connection handshake)
 TRequest ==
@@ -86,7 +87,7 @@ TRequest ==
      /\ c' = c1
      /\ sync' = good
      /\ (IF good \/ ~sync THEN TRUE ELSE PrintT(<<"IFLAG", sc, l, "request", ToJson([want |-> want.seq, got |-> Ev.cmd])>>))
-  /\ UNCHANGED <<cfg, sc, pcall, open>>
+  /\ UNCHANGED <<cfg, sc, pcall, open, clean>>
 
 \* a reply frame of the exchange being collected (position 0 is the acknowledgement)
 TReply ==
@@ -94,7 +95,7 @@ TReply ==
   /\ LET r == ParseEnum(SequencesTable[cur.seq].parser, Ev.raw) IN
      IF r.ok THEN cur' = [cur EXCEPT !.replies = Append(@, [v |-> r.variant, val |-> r.val])] /\ sync' = sync
      ELSE cur' = cur /\ sync' = FALSE /\ (IF ~sync THEN TRUE ELSE PrintT(<<"IFLAG", sc, l, "undecodable-reply", "{}">>))
-  /\ UNCHANGED <<cfg, sc, c, exs, pcall, open>>
+  /\ UNCHANGED <<cfg, sc, c, exs, pcall, open, clean>>
 
 TReturn ==
   /\ Ev.e = "ret" /\ pcall.op # ""
@@ -104,21 +105,24 @@ TReturn ==
          good == sync /\ Returned(c1) /\ RetMatches(c1, ret)
          pf == PFlags(cfg, open, pcall, xs, ret) IN
      /\ (IF good \/ ~sync THEN TRUE ELSE PrintT(<<"IFLAG", sc, l, "result", ToJson([stage |-> c1.stage, exp |-> c1.res, got |-> ret.err, ok |-> ret.ok])>>))
-     /\ (IF pf = {} THEN TRUE ELSE PrintT(<<"PFLAG", sc, l, ToJson(pf)>>))
+     /\ (IF pf = {} \/ ~clean THEN TRUE ELSE PrintT(<<"PFLAG", sc, l, ToJson(pf)>>))
      /\ open' = P07(cfg, open, pcall, xs, ret).open
      /\ sync' = good
      /\ c' = IF good THEN AfterReturn(c1) ELSE c1
   /\ cur' = NoCur /\ exs' = <<>> /\ pcall' = NoCall
-  /\ UNCHANGED <<cfg, sc>>
+  /\ UNCHANGED <<cfg, sc, clean>>
 
 \* a call that never returned or panicked: reported by the driver; the scenario ends there
 TAbnormal == /\ Ev.e \in {"hang", "panic"} /\ PrintT(<<"PFLAG", sc, l, ToJson({"abnormal-" \o Ev.e})>>)
-             /\ sync' = FALSE /\ pcall' = NoCall /\ cur' = NoCur /\ exs' = <<>> /\ UNCHANGED <<cfg, sc, c, open>>
+             /\ sync' = FALSE /\ pcall' = NoCall /\ cur' = NoCur /\ exs' = <<>> /\ UNCHANGED <<cfg, sc, c, open, clean>>
 
 Handled == \/ Ev.e \in {"reset", "call", "ret", "hang", "panic"}
            \/ (Ev.e = "rx" /\ Ev.cmd # "Ack" /\ "hs" \in DOMAIN Ev /\ Ev.hs = FALSE /\ pcall.op # "")
            \/ (Ev.e = "tx" /\ cur.open /\ Ev.ex = cur.ex /\ Ev.pos >= 1)
-TSkip == ~Handled /\ UNCHANGED <<cfg, sc, c, sync, cur, exs, pcall, open>>
+\* connection churn inside a call (a reconnect after a failure) takes the rest of the scenario out of the fault-free quantifier
+TSkip == /\ ~Handled
+         /\ clean' = (clean /\ ~(Ev.e \in {"open", "fault", "connect_stall", "connect_refused"} \/ (Ev.e = "close" /\ pcall.op # "")))
+         /\ UNCHANGED <<cfg, sc, c, sync, cur, exs, pcall, open>>
 
 TNext == l <= Len(Trc) /\ l' = l + 1 /\ (TReset \/ TCall \/ TRequest \/ TReply \/ TReturn \/ TAbnormal \/ TSkip)
 
